@@ -88,21 +88,40 @@ Definition result_eqb (a b : option (list event * final)) : bool :=
 
 Definition FUEL : nat := 4000.
 
+(* the shape of the tree, as probed by the check (Gen/C08_Consts.v) *)
+Definition cur_variant : variant :=
+  {| v_goexit_rethrow := gen_goexit_rethrow; v_pushback_asleep_only := gen_pushback_asleep_only;
+     v_exit_swallows_null_only := gen_exit_swallows_null_only |}.
+
 (* observed: what the compiled program did under node (b_impl) and what native Go
    did (b_go).  b_use_go = false when native Go was not run for this program. *)
 Record bcase := { b_prog : program; b_impl : list event * final; b_go : list event * final; b_use_go : bool }.
 
 Definition bcase_impl_ok (c : bcase) : bool :=
-  result_eqb (obs (impl_run gen_goexit_rethrow FUEL (b_prog c))) (Some (b_impl c)).
+  result_eqb (obs (impl_run cur_variant FUEL (b_prog c))) (Some (b_impl c)).
 Definition bcase_spec_ok (c : bcase) : bool :=
   negb (b_use_go c) || result_eqb (obs (spec_run FUEL (b_prog c))) (Some (b_go c)).
 (* do the two models agree with each other on this program? (used to classify) *)
 Definition bcase_models_agree (c : bcase) : bool :=
-  result_eqb (obs (impl_run gen_goexit_rethrow FUEL (b_prog c))) (obs (spec_run FUEL (b_prog c))).
+  result_eqb (obs (impl_run cur_variant FUEL (b_prog c))) (obs (spec_run FUEL (b_prog c))).
 
 Definition bmismatches_impl (cs : list bcase) : list N := idx_where bcase_impl_ok 0%N cs.
 Definition bmismatches_spec (cs : list bcase) : list N := idx_where bcase_spec_ok 0%N cs.
 Definition bmodels_differ (cs : list bcase) : list N := idx_where bcase_models_agree 0%N cs.
+
+(* which recorded finding explains a program on which the current shape differs from SpecPanic:
+   0 none needed (models agree); 1 the replaced-panic repair alone makes them agree; 2 the
+   $goroutine catch-clause repair alone; 3 the Goexit repair alone; 4 all repairs together; 5 unexplained *)
+Definition bclass (c : bcase) : N :=
+  let sp := obs (spec_run FUEL (b_prog c)) in
+  let agree v := result_eqb (obs (impl_run v FUEL (b_prog c))) sp in
+  let cv := cur_variant in
+  if agree cv then 0%N
+  else if agree {| v_goexit_rethrow := v_goexit_rethrow cv; v_pushback_asleep_only := true; v_exit_swallows_null_only := v_exit_swallows_null_only cv |} then 1%N
+  else if agree {| v_goexit_rethrow := v_goexit_rethrow cv; v_pushback_asleep_only := v_pushback_asleep_only cv; v_exit_swallows_null_only := true |} then 2%N
+  else if agree {| v_goexit_rethrow := true; v_pushback_asleep_only := v_pushback_asleep_only cv; v_exit_swallows_null_only := v_exit_swallows_null_only cv |} then 3%N
+  else if agree V_FULL then 4%N else 5%N.
+Definition bclasses (cs : list bcase) : list N := map bclass cs.
 
 (* dynamic features of the specification run that delimit the two recorded
    findings: a Goexit was executed; a panic was raised by a deferred call while
